@@ -354,3 +354,269 @@ Definition stateless_step (r s : Z) (st : verify_step) : option bool :=
   | (Some dg, Some a) => lib_verify_step r s dg a
   | _ => None
   end.
+
+(* ================================================================ argument forms: bytes or text
+   Every digest / signature / key argument of sign, verify, Signature.create / parse / parse_hex / Signature(...) /
+   Signature.verify and of the txid / public_key setters is documented "bytes, str (hexstring)".  The property speaks
+   of the VALUE: the meaning of a bytes argument is its bytes, the meaning of a str argument is the bytes its
+   base-16 text (either case, two digits per byte, nothing else) decodes to.  The library's helpers to_bytes /
+   to_hexstring GUESS the form from the content (bytes that happen to read as hex text are un-hexlified by to_bytes;
+   text that does not read as hex is taken as UTF-8 by to_hexstring), so every such argument is a place where a
+   value can be re-interpreted.  Here the code paths are modelled on the argument AS GIVEN (a [parg]);
+   Proofs/EcdsaForms.v proves that for every argument that has a meaning the answer is the stateless function of
+   the meaning (verify_argument_form_irrelevant, sign_argument_form_irrelevant), and exhibits what happens outside. *)
+
+Inductive parg : Type :=
+  | PBytes (b : bytes)       (* a Python bytes object *)
+  | PText (s : bytes).       (* a Python str; s = its characters (ASCII) *)
+
+Definition hex_val (c : byte) : option Z :=
+  let v := bz c in
+  if (48 <=? v) && (v <=? 57) then Some (v - 48)
+  else if (97 <=? v) && (v <=? 102) then Some (v - 87)
+  else if (65 <=? v) && (v <=? 70) then Some (v - 55)
+  else None.
+
+(* ASCII whitespace as bytes.fromhex (Python >= 3.7) and C isspace() skip it: space, \t \n \v \f \r *)
+Definition is_ws (c : byte) : bool := let v := bz c in ((9 <=? v) && (v <=? 13)) || (v =? 32).
+
+(* base-16 text: two digits per byte, either case, nothing else *)
+Fixpoint unhex (s : bytes) : option bytes :=
+  match s with
+  | [] => Some []
+  | a :: s1 =>
+      match s1 with
+      | b :: rest =>
+          match hex_val a, hex_val b, unhex rest with
+          | Some h, Some l, Some t => Some (zb (16 * h + l) :: t)
+          | _, _, _ => None
+          end
+      | [] => None
+      end
+  end.
+
+(* THE meaning of an argument *)
+Definition arg_meaning (a : parg) : option bytes :=
+  match a with
+  | PBytes b => Some b
+  | PText s => unhex s
+  end.
+
+(* bytes.fromhex: whitespace between the pairs is skipped, the two digits of a pair are adjacent; None = ValueError *)
+Fixpoint py_fromhex (s : bytes) : option bytes :=
+  match s with
+  | [] => Some []
+  | a :: s1 =>
+      if is_ws a then py_fromhex s1
+      else
+        match s1 with
+        | b :: rest =>
+            match hex_val a, hex_val b, py_fromhex rest with
+            | Some h, Some l, Some t => Some (zb (16 * h + l) :: t)
+            | _, _, _ => None
+            end
+        | [] => None
+        end
+  end.
+
+(* encoding.to_hexstring: '' for anything false; a str that bytes.fromhex accepts is returned AS IT IS (case and
+   whitespace kept); any other str is taken as UTF-8 text and hexlified; bytes are hexlified (bytes.fromhex(bytes)
+   raises TypeError, which is caught) *)
+Definition lib_to_hexstring (a : parg) : bytes :=
+  match a with
+  | PBytes b => hex_ascii b
+  | PText s =>
+      match s with
+      | [] => []
+      | _ => match py_fromhex s with Some _ => s | None => hex_ascii s end
+      end
+  end.
+
+(* the txid setter of Signature (also what Signature.create does first): bytes -> .hex(), str kept as it is *)
+Definition lib_txid_set (a : parg) : bytes :=
+  match a with
+  | PBytes b => hex_ascii b
+  | PText s => s
+  end.
+
+(* how fastecdsa's C code (_ecdsa.sign / _ecdsa.verify) reads the digest text: mpz_init_set_str(e, text, 16) — GMP
+   ignores white space anywhere in the string and leaves 0 when any other character is not a base-16 digit — then,
+   when strlen(text) * 4 exceeds the 256 bits of n, e is shifted right by the excess: strlen counts the white space *)
+Definition is_hexdigit (c : byte) : bool := match hex_val c with Some _ => true | None => false end.
+Definition clean_text (t : bytes) : bool := forallb (fun c => is_ws c || is_hexdigit c) t.
+Definition hex_int (t : bytes) : Z :=
+  fold_left (fun acc c => match hex_val c with Some v => 16 * acc + v | None => acc end) t 0.
+Definition c_digest (t : bytes) : Z :=
+  if clean_text t then
+    let n := 4 * Z.of_nat (length t) in
+    if 256 <? n then Z.shiftr (hex_int t) (n - 256) else hex_int t
+  else 0.
+
+(* the digest text an object holds, as digest BYTES the rest of the model understands: Signature.verify looks at the
+   text twice — "if not self.txid" and the integer the C code reads from it — and c_digest t < 2^256 *)
+Definition eff_digest (t : bytes) : bytes :=
+  match t with
+  | [] => []
+  | _ => be_bytes 32 (c_digest t)
+  end.
+
+(* the digest argument of verify(txid, ..) / Signature.verify(txid, ..): through to_hexstring *)
+Definition dg_via_verify (a : parg) : bytes := eff_digest (lib_to_hexstring a).
+(* the digest argument of Signature(r, s, txid=..) / obj.txid = ..: through the setter only *)
+Definition dg_via_set (a : parg) : bytes := eff_digest (lib_txid_set a).
+
+(* the signature argument of verify / Signature.parse: bytes -> parse_bytes; str -> parse_hex = bytes.fromhex *)
+Definition sig_of_form (a : parg) : option bytes :=
+  match a with
+  | PBytes b => Some b
+  | PText s => py_fromhex s
+  end.
+
+(* the public-key argument: bytes -> HDKey(bytes), str -> HDKey(str).  HDKey reads base-16 text of a SEC key in
+   either case and refuses the other texts this model speaks about (white space inside, odd length, other
+   characters; WIF / extended-key texts are C04/C12's domain and are not generated) *)
+Definition key_of_form (a : parg) : key_arg :=
+  match a with
+  | PBytes b => KBytes b
+  | PText s => match unhex s with Some b => KText b | None => KPoint (0, 0) end
+  end.
+
+(* keys.verify(txid, signature, public_key) with all three arguments as given *)
+Definition lib_verify_forms (dg sg key : parg) : option bool :=
+  match sig_of_form sg with
+  | Some sig => lib_verify_arg (dg_via_verify dg) sig (key_of_form key)
+  | None => None
+  end.
+
+(* Signature.verify(txid, public_key) on an object holding (r, s) *)
+Definition lib_verify_step_forms (r s : Z) (dg key : parg) : option bool :=
+  lib_verify_step r s (dg_via_verify dg) (key_of_form key).
+
+(* ---------------------------------------------------------------- signing with the digest as given
+   Signature.create: txid.hex() for bytes; more than 64 CHARACTERS -> double_sha256(bytes.fromhex(txid)) as hex;
+   the RFC 6979 generator hashes the TEXT; the C signer reads the text as c_digest does *)
+Definition lib_create_text (a : parg) : option bytes :=
+  let t := lib_txid_set a in
+  if (64 <? length t)%nat then
+    match py_fromhex t with
+    | Some m => Some (hex_ascii (sha256d m))
+    | None => None
+    end
+  else Some t.
+
+Definition lib_sign_forms (d : Z) (a : parg) (k : option Z) (ht : Z) : option (Z * Z * bytes) :=
+  match lib_create_text a with
+  | None => None
+  | Some t =>
+      if (1 <=? d) && (d <? secp_n) then
+        match ecdsa_sign d (c_digest t)
+                (match k with
+                 | Some k0 => if k0 =? 0 then rfc6979_nonce d (sha256 t) else k0
+                 | None => rfc6979_nonce d (sha256 t)
+                 end) with
+        | None => None
+        | Some (r, s0) =>
+            let s := lib_low_s s0 in
+            if (0 <=? ht) && (ht <? 256) then Some (r, s, der_enc r s ++ [zb ht]) else None
+        end
+      else None
+  end.
+
+(* no upper-case letter: the text bytes.hex() would have produced for the same value *)
+Definition lower_text (a : parg) : bool :=
+  match a with
+  | PBytes _ => true
+  | PText s => forallb (fun c => negb ((65 <=? bz c) && (bz c <=? 70))) s
+  end.
+
+(* ---------------------------------------------------------------- sessions with the arguments as given *)
+Inductive fkey : Type :=
+  | FK (k : key_arg)         (* an object the caller built (Key, HDKey, tuple) *)
+  | FP (a : parg).           (* bytes or text handed to the library *)
+
+Definition key_of_fkey (k : fkey) : key_arg := match k with FK a => a | FP a => key_of_form a end.
+
+(* one call on the object: (by attribute assignment?, digest, key).  false: obj.verify(txid, public_key) /
+   keys.verify(txid, obj, public_key); true: obj.txid = ..; obj.public_key = ..; obj.verify() *)
+Definition form_step : Type := (bool * option parg * option fkey)%type.
+
+Definition step_of_form (st : form_step) : verify_step :=
+  match st with
+  | (by_attr, dg, key) =>
+      (option_map (if by_attr : bool then dg_via_set else dg_via_verify) dg, option_map key_of_fkey key)
+  end.
+
+Inductive form_src : Type :=
+  | FSign (d : Z) (a : parg) (k : option Z) (ht : Z)                         (* keys.sign / Signature.create *)
+  | FBytes (sg : parg) (key : option fkey)                                   (* Signature.parse / parse_bytes / parse_hex *)
+  | FValues (r s : Z) (dg : option parg) (key : option fkey).                (* Signature(r, s, txid=, public_key=) *)
+
+Definition lib_new_obj_forms (src : form_src) : option sig_obj :=
+  match src with
+  | FSign d a k ht =>
+      match lib_create_text a, lib_sign_forms d a k ht with
+      | Some t, Some (r, s, _) => Some (mk_sig_obj r s (Some (eff_digest t)) (secp_pub d) true)
+      | _, _ => None
+      end
+  | FBytes sg key =>
+      match sig_of_form sg with
+      | Some b => lib_new_obj (SrcBytes b (option_map key_of_fkey key))
+      | None => None
+      end
+  | FValues r s dg key => lib_new_obj (SrcValues r s (option_map dg_via_set dg) (option_map key_of_fkey key))
+  end.
+
+Definition lib_verify_session_forms (src : form_src) (steps : list form_step) : option (list (option bool)) :=
+  match lib_new_obj_forms src with
+  | Some o => Some (run_session obj_verify o (map step_of_form steps))
+  | None => None
+  end.
+
+(* the same session on the meanings: None when some argument has no meaning *)
+Definition fkey_meaning (k : fkey) : option key_arg :=
+  match k with
+  | FK a => Some a
+  | FP (PBytes b) => Some (KBytes b)
+  | FP (PText s) => match unhex s with Some b => Some (KText b) | None => None end
+  end.
+
+Definition opt_meaning {A B : Type} (f : A -> option B) (x : option A) : option (option B) :=
+  match x with
+  | None => Some None
+  | Some a => match f a with Some b => Some (Some b) | None => None end
+  end.
+
+Definition step_meaning (st : form_step) : option verify_step :=
+  match st with
+  | (_, dg, key) =>
+      match opt_meaning arg_meaning dg, opt_meaning fkey_meaning key with
+      | Some d, Some k => Some (d, k)
+      | _, _ => None
+      end
+  end.
+
+(* keys.verify with the key possibly an object the caller built *)
+Definition lib_verify_fkey (dg sg : parg) (key : fkey) : option bool :=
+  match sig_of_form sg with
+  | Some sig => lib_verify_arg (dg_via_verify dg) sig (key_of_fkey key)
+  | None => None
+  end.
+
+(* signing sessions with the digests as given: one process, no state *)
+Record sign_req_f : Type := mk_sign_req_f { sf_d : Z; sf_dg : parg; sf_k : option Z; sf_ht : Z }.
+Definition lib_sign_req_f (q : sign_req_f) : option (Z * Z * bytes) := lib_sign_forms (sf_d q) (sf_dg q) (sf_k q) (sf_ht q).
+Definition lib_sign_call_f (st : sign_state) (q : sign_req_f) : sign_state * option (Z * Z * bytes) := (st, lib_sign_req_f q).
+Definition lib_sign_session_forms (reqs : list sign_req_f) : list (option (Z * Z * bytes)) :=
+  run_session lib_sign_call_f tt reqs.
+
+(* Signature.parse_bytes / parse_hex / parse with the argument as given: parse_bytes wants bytes, parse_hex wants a
+   str (the other type raises TypeError), parse takes both *)
+Inductive parse_how : Type := HowBytes | HowHex | HowAny.
+Definition lib_parse_forms (how : parse_how) (a : parg) : option (Z * Z * Z) :=
+  match how, a with
+  | HowBytes, PBytes b => lib_parse b
+  | HowBytes, PText _ => None
+  | HowHex, PBytes _ => None
+  | HowHex, PText s => match py_fromhex s with Some b => lib_parse b | None => None end
+  | HowAny, _ => match sig_of_form a with Some b => lib_parse b | None => None end
+  end.
